@@ -158,7 +158,7 @@ func runPre(j job, g int32, yseed uint64, pre *prebuilt) (out []byte, err error)
 			if pos+l > len(data) {
 				l = len(data) - pos
 			}
-			if _, err = w.Write(data[pos : pos+l]); err != nil {
+			if _, err = callerWrite(w, data[pos:pos+l], j.Seed+uint64(pos)); err != nil {
 				return nil, err
 			}
 			pos += l
@@ -481,4 +481,18 @@ func main() {
 	}
 	res.Configs = len(cfgs)
 	json.NewEncoder(os.Stdout).Encode(res)
+}
+
+// callerWrite: see cmd/vcheck/lib.go (the caller's buffer is overwritten after Write returned).
+func callerWrite(w io.Writer, p []byte, salt uint64) (int, error) {
+	if salt%2 == 0 || len(p) == 0 {
+		return w.Write(p)
+	}
+	buf := make([]byte, len(p))
+	copy(buf, p)
+	n, err := w.Write(buf)
+	for i := range buf {
+		buf[i] = 0xA5
+	}
+	return n, err
 }
